@@ -367,6 +367,12 @@ typedef struct sres {
  * model per `mode` (0 none, 1 on, 2 on then cleared), solve, and on success
  * add the calibration under `name`.
  */
+/* history of earlier declarations of the noise model on the same
+ * vnacal_new_t (re-declaration kinds): first g_pre, optionally cleared with
+ * (NULL, NULL), then the final declaration; only the last one counts */
+static const noise_t *g_pre;
+static int g_pre_clear;
+
 static void one_solve(sc_scn_t *sc, vnacal_t *vcp, const noise_t *nz,
 	int mode, uint64_t noise_seed, const char *name, sres_t *r)
 {
@@ -394,8 +400,20 @@ static void one_solve(sc_scn_t *sc, vnacal_t *vcp, const noise_t *nz,
 	r->setup = 1;
     if (r->setup && mode != 0) {
 	vt_cb_reset();
-	r->mset = LIB(vnacal_new_set_m_error(vnp, nz->have_f ? nz->f : NULL,
-		    nz->n, nz->nf, nz->have_tr ? nz->tr : NULL));
+	if (g_pre != NULL && mode == 1) {
+	    r->mset = LIB(vnacal_new_set_m_error(vnp,
+			g_pre->have_f ? g_pre->f : NULL, g_pre->n, g_pre->nf,
+			g_pre->have_tr ? g_pre->tr : NULL));
+	    if (r->mset == 0 && g_pre_clear)
+		r->mset = LIB(vnacal_new_set_m_error(vnp, NULL, 1, NULL,
+			    NULL));
+	    if (r->mset != 0)
+		r->mset = 6;		/* an earlier declaration refused */
+	}
+	if (r->mset == 0 || r->mset == 9)
+	    r->mset = LIB(vnacal_new_set_m_error(vnp,
+			nz->have_f ? nz->f : NULL, nz->n, nz->nf,
+			nz->have_tr ? nz->tr : NULL));
 	if (r->mset == 0 && mode == 2)
 	    r->mset = LIB(vnacal_new_set_m_error(vnp, NULL, 1, NULL, NULL));
 	/* the default significance is 0.001; say so explicitly half the time */
@@ -547,7 +565,44 @@ static void run_case(const char *table, uint64_t seed, int row)
     } else {
 	/* noisy data: declared sigma at each calibration frequency */
 	double amp = 1.0;
+	noise_t pre;
+	const int rdacc = strcmp(c.kind, "rdacc") == 0;
+	const int rdrej = strcmp(c.kind, "rdrej") == 0;
 
+	if (rdacc || rdrej) {
+	    /* an earlier, different declaration on the same vnacal_new_t:
+	     * 100 x smaller (rdacc) / larger (rdrej) values on another kind
+	     * of grid ("regrid", "offon": cleared in between), or the same
+	     * noise floor with a tracking vector of 0.1 that the final
+	     * declaration drops ("trnull") */
+	    const double k = rdacc ? 0.01 : 100.0;
+
+	    memset(&pre, 0, sizeof(pre));
+	    if (strcmp(c.vec, "trnull") == 0) {
+		pre = nz;
+		pre.have_tr = 1;
+		for (int i = 0; i < pre.n; ++i)
+		    pre.tr[i] = 0.1;
+	    } else if (strcmp(c.grid, "two") != 0) {
+		pre.n = 2;
+		pre.have_f = 1;
+		pre.f[0] = 0.5 * sc.f[0];
+		pre.f[1] = 2.0 * sc.f[sc.nf - 1];
+		pre.have_tr = c.st != 0;
+		for (int i = 0; i < 2; ++i) {
+		    pre.nf[i] = k * pow(10.0, -c.sn);
+		    pre.tr[i] = c.st ? k * pow(10.0, -c.st) : 0.0;
+		}
+	    } else {
+		pre.n = 1;
+		pre.have_tr = c.st != 0;
+		pre.nf[0] = k * pow(10.0, -c.sn);
+		pre.tr[0] = c.st ? k * pow(10.0, -c.st) : 0.0;
+	    }
+	    g_pre = &pre;
+	    g_pre_clear = strcmp(c.vec, "offon") == 0;
+	    amp = 0.3;
+	}
 	if (strcmp(c.kind, "iacc") == 0)
 	    amp = 0.3;
 	else if (strcmp(c.kind, "irej") == 0)
@@ -558,7 +613,8 @@ static void run_case(const char *table, uint64_t seed, int row)
 	}
 	for (int si = 0; si < sc.nstd; ++si)
 	    sc.std[si].scale = amp;
-	if (strcmp(c.kind, "outlier") == 0 || strcmp(c.kind, "irej") == 0) {
+	if (strcmp(c.kind, "outlier") == 0 || strcmp(c.kind, "irej") == 0 ||
+		rdrej) {
 	    /* the outlier must be observable: a reflect standard on port 1
 	     * (always driven and detected), whose reflection equation is
 	     * over-determined by the other reflects on that port */
@@ -579,6 +635,7 @@ static void run_case(const char *table, uint64_t seed, int row)
 	    sc.outlier_sigmas = 100.0;
 	}
 	one_solve(&sc, vcp, &nz, 1, nseed, NULL, &w);
+	g_pre = NULL;
     }
 report:
     vt_put("{\"e\":\"Scn\",\"kind\":\"%s\",\"ty\":\"%s\",\"ref\":%d,"
